@@ -9,7 +9,7 @@ from .. import sym as S
 from ..catalog import modem_specs, build_modem
 from ..common import Check, Tally, ob, tier, replay_main, TIER
 from ..engine import fresh_reals, elems, from_arr
-from ..harness import sym_paths, decide_nra, decide, zor, zand
+from ..harness import decide_any, sym_paths, decide_nra, decide, zor, zand
 from ..sym import NotEncodable
 
 PID = "C06"
@@ -183,6 +183,126 @@ def soft_item(m, tl, mutate=None):
                sample=dict(query="exists y, noise_var: LLR_p * noise_var != kappa (min_{label_p=1}|y-c|^2 - min_{label_p=0}|y-c|^2)", kappa=kappa, points=len(pts), paths=len(paths)), **tl.take())]
 
 
+def frame_inputs(Lf, window):
+    """fixed pseudo-random received points and per-symbol noise variances for a frame (LCG, independent of torch's RNG)"""
+    ys, nvs, x = [], [], 4711
+    for i in range(Lf):
+        x = (1103515245 * x + 12345) % (1 << 31)
+        a = ((x >> 8) % 2001 - 1000) / 700.0
+        x = (1103515245 * x + 12345) % (1 << 31)
+        b = ((x >> 8) % 2001 - 1000) / 700.0
+        ys.append(complex(a, b))
+        nvs.append(0.25 + 0.001 * ((i * 37) % 997))       # all different within any 997 consecutive symbols
+    return ys, nvs
+
+
+def soft_frame_item(m, tl, Lf, window, mutate=None):
+    """soft output on a FRAME with a per-symbol noise_var tensor: the symbols at `window` are symbolic (y and noise_var),
+    the others are fixed; every symbol's LLRs must be the max-log value for ITS OWN y and ITS OWN noise_var"""
+    config = f"{m['name']} frame of {Lf} symbols, per-symbol noise_var, symbolic symbols {tuple(window)}"
+    clause = "soft output per symbol = kappa (min d1^2 - min d0^2) / noise_var[symbol]"
+    mod, demod = build_modem(m)
+    if mutate:
+        mutate(mod, demod)
+    pts, labels = table(demod.modulator if hasattr(demod, "modulator") and hasattr(demod.modulator, "constellation") else mod)
+    bps = m["bps"]
+    with _disable_current_modes():
+        demod.eval()
+        l0 = demod(torch.tensor([[0.3 + 0.2j]], dtype=torch.complex64), 0.7).flatten().tolist()
+    yy = complex(0.3, 0.2)
+    ks = []
+    for p in range(bps):
+        m1 = min(abs(yy - c) ** 2 for c, lab in zip(pts, labels) if lab[p] == 1)
+        m0 = min(abs(yy - c) ** 2 for c, lab in zip(pts, labels) if lab[p] == 0)
+        if abs(m1 - m0) > 1e-6:
+            ks.append(l0[p] * 0.7 / (m1 - m0))
+    kappa = round(sum(ks) / len(ks), 3) if ks else 1.0
+    ys0, nv0 = frame_inputs(Lf, window)
+    W = list(window)
+
+    def run(ctx):
+        demod.eval()
+        if hasattr(demod, "reset_state"):
+            demod.reset_state()
+        y = torch.tensor(ys0, dtype=torch.complex64).reshape(1, Lf)
+        nv = torch.tensor(nv0, dtype=torch.float32).reshape(1, Lf)
+        ysym = fresh_reals("y", (len(W),), torch.complex64)
+        vsym = fresh_reals("v", (len(W),), torch.float32)
+        idx = torch.tensor(W)
+        y[0, idx] = ysym
+        nv[0, idx] = vsym
+        return dict(y=y, nv=nv, llr=demod(y, nv))
+    names = [f"y{i}{c}" for i in range(len(W)) for c in "ri"]
+    assume = [z3.And(z3.Real(nm) >= -YMAX, z3.Real(nm) <= YMAX) for nm in names] + [z3.And(z3.Real(f"v{i}") >= z3.RealVal("1/100"), z3.Real(f"v{i}") <= 100) for i in range(len(W))]
+    try:
+        paths = sym_paths(run, assume, tl, max_paths=64, state=(demod,))
+    except (RuntimeError, ValueError, IndexError, TypeError) as e:
+        if isinstance(e, NotEncodable):
+            raise
+        return [ob(clause, config, "violated", what=f"raises on a per-symbol noise_var tensor: {type(e).__name__}: {str(e)[:100]}", witness={"raises": True}, replay={"reproduced": replay_soft_frame(m, Lf, W, None, pts, labels, kappa)[0]}, **tl.take())]
+    status, viol = "holds", None
+    for ctx, R in paths:
+        yv, nvv, llr = elems(R["y"]), elems(R["nv"]), elems(R["llr"])
+        if len(llr) != Lf * bps:
+            return [ob(clause, config, "violated", what=f"{len(llr)} LLRs for {Lf} symbols of {bps} bits", witness={"len": len(llr)}, replay={"reproduced": True}, **tl.take())]
+        S.ENV.side, S.ENV.defined = ctx.side, ctx.defined
+        try:
+            bad = []
+            # every symbolic symbol, and a spread of fixed ones (their obligations are ground: decided by evaluation inside the solver query)
+            for k in sorted(set(W) | set(range(0, Lf, max(1, Lf // 24))) | {Lf - 1}):
+                y = S.tocx(yv[k])
+                for p in range(bps):
+                    m1 = m0 = None
+                    for c, lab in zip(pts, labels):
+                        d = d2(y, c)
+                        if lab[p] == 1:
+                            m1 = d if m1 is None else S.minimum(m1, d)
+                        else:
+                            m0 = d if m0 is None else S.minimum(m0, d)
+                    diff = S.sub(S.mul(llr[k * bps + p], nvv[k]), S.mul(S.sub(m1, m0), kappa))
+                    tol = 2e-3 * kappa
+                    bad += [S.zbool(S.gt(diff, tol)), S.zbool(S.lt(diff, -tol))]
+        finally:
+            S.ENV.side = S.ENV.defined = None
+        st, model = decide_any(ctx, bad, budget_s=30)
+        if st == "violated" and viol is None:
+            w = dict(y=[float(S.zval(model, z3.Real(nm))) for nm in names], v=[float(S.zval(model, z3.Real(f"v{i}"))) for i in range(len(W))])
+            rep, detail = replay_soft_frame(m, Lf, W, w, pts, labels, kappa)
+            viol = dict(what=detail, witness=w, replay={"reproduced": rep})
+            status = "violated"
+        elif st == "inconclusive" and status == "holds":
+            status = st
+    if viol:
+        return [ob(clause, config, "violated", **viol, **tl.take())]
+    return [ob(clause, config, status, sample=dict(query="exists y_w, v_w (window symbols): LLR[k,p] * noise_var[k] != kappa (min d1^2 - min d0^2) for some symbol k", frame=Lf, window=W, kappa=kappa), **tl.take())]
+
+
+def replay_soft_frame(m, Lf, W, w, pts, labels, kappa):
+    with _disable_current_modes():
+        mod, demod = build_modem(m)
+        demod.eval()
+        ys0, nv0 = frame_inputs(Lf, W)
+        if w is not None:
+            for i, k in enumerate(W):
+                ys0[k] = complex(w["y"][2 * i], w["y"][2 * i + 1])
+                nv0[k] = w["v"][i]
+        y = torch.tensor(ys0, dtype=torch.complex64).reshape(1, Lf)
+        nv = torch.tensor(nv0, dtype=torch.float32).reshape(1, Lf)
+        try:
+            llr = demod(y, nv).flatten().tolist()
+        except Exception as e:  # noqa: BLE001
+            return True, f"raises {type(e).__name__}: {str(e)[:80]}"
+        bps = m["bps"]
+        for k in range(Lf):
+            yy = complex(y[0, k])
+            for p in range(bps):
+                m1 = min(abs(yy - c) ** 2 for c, lab in zip(pts, labels) if lab[p] == 1)
+                m0 = min(abs(yy - c) ** 2 for c, lab in zip(pts, labels) if lab[p] == 0)
+                if abs(llr[k * bps + p] * nv0[k] - kappa * (m1 - m0)) > 1e-3 * kappa:
+                    return True, f"symbol {k} (y = {yy:.4f}, its noise_var = {nv0[k]:.4g}): LLR[{p}] = {llr[k * bps + p]:.5g}, max-log value {kappa * (m1 - m0) / nv0[k]:.5g}"
+        return False, ""
+
+
 def replay_soft(m, yv, vv, pts, labels, kappa):
     with _disable_current_modes():
         mod, demod = build_modem(m)
@@ -215,6 +335,8 @@ def work(item):
             return [ob("selftest:demodulator-table-drift", "selftest", "holds" if hit else "error", what="" if hit else "mutant not flagged")]
         if item["type"] == "hard":
             return hard_item(item["modem"], tl)
+        if item["type"] == "soft-frame":
+            return soft_frame_item(item["modem"], tl, item["frame"], item["window"])
         return soft_item(item["modem"], tl)
     except NotEncodable as e:
         return [ob("harness", item["config"], "error", what=f"NotEncodable: {e}", stretch=bool(item.get("stretch")))]
@@ -242,11 +364,27 @@ def all_items():
         stretch = (m["order"] or 2) > 16
         items.append(dict(type="hard", modem=m, config=m["name"] + " hard", stretch=stretch and not m["name"].startswith("QAM64(gray=True,normalize=True")))
         items.append(dict(type="soft", modem=m, config=m["name"] + " soft", stretch=stretch))
+    # frames with a per-symbol noise_var tensor: short (all symbols symbolic) and long (block boundaries of vectorised code)
+    for m in modem_specs(max_order=16):
+        if m["name"] in FRAME_MODEMS and (TIER == "thorough" or m["name"] in FRAME_QUICK):
+            items.append(dict(type="soft-frame", modem=m, frame=3, window=[0, 1, 2], config=f"{m['name']} soft frame 3"))
+            items.append(dict(type="soft-frame", modem=m, frame=1030, window=[0, 1024, 1029], config=f"{m['name']} soft frame 1030"))
     items.append(dict(selftest=True, config="selftest"))
     return items
 
 
+FRAME_QUICK = ("PSK4(gray=True)", "QAM16(gray=True,normalize=True)", "BPSK")
+FRAME_MODEMS = FRAME_QUICK + ("QPSK(normalize=True)", "PSK8(gray=True)", "PSK8(gray=False)", "PAM4(gray=True,normalize=True)", "QAM4(gray=True,normalize=True)", "PSK16(gray=True)")
+
+
 def replay(body):
+    if "frame of" in body["config"]:
+        for it in all_items():
+            if it["type"] == "soft-frame" and body["config"].startswith(it["modem"]["name"] + " frame of " + str(it["frame"]) + " "):
+                mod, demod = build_modem(it["modem"])
+                pts, labels = table(demod.modulator if hasattr(demod, "modulator") and hasattr(demod.modulator, "constellation") else mod)
+                return replay_soft_frame(it["modem"], it["frame"], it["window"], body["witness"] if "y" in body["witness"] else None, pts, labels, 1.0)[0]
+        return False
     for it in all_items():
         if it.get("config", "").startswith(body["config"] + " "):
             w = body["witness"]
